@@ -5,6 +5,7 @@ CONSTANTS
 CONSTRAINT AcceptC
 INVARIANT EachOnce
 INVARIANT ReturnsAfterAll
+INVARIANT OwnBlock
 INVARIANT EventsOnceInOrder
 INVARIANT OneAtATime
 INVARIANT BrokenReported
